@@ -374,6 +374,14 @@ static inline int ubuf_block_delete(struct ubuf *ubuf, int offset, int size)
         return UBASE_ERR_INVALID;
 
     struct ubuf_block *head_block = ubuf_block_from_ubuf(ubuf);
+    if (offset < 0)
+        offset += head_block->total_size;
+    if (size == -1)
+        size = head_block->total_size - offset;
+    if (unlikely(offset < 0 || size < 0 ||
+                 (size_t)offset > head_block->total_size ||
+                 (size_t)size > head_block->total_size - offset))
+        return UBASE_ERR_INVALID;
     if (unlikely((ubuf = ubuf_block_get(ubuf, &offset, &size)) == NULL))
         return UBASE_ERR_INVALID;
     int delete_size = size;
